@@ -18,7 +18,8 @@ CHECKS = {
              "symbolic unit costs: on every feasible path of every algorithm and policy the results carry exactly the specified distinct names and z3 "
              "proves each solution's oracle recount equal to the printed 'Minimum cost' for all cost vectors. The JSON lines, parse-back, draw, the "
              "all-superset-of-any relation and exit status 1 without syntenies are exercised at file level with the solver's witness cost vectors "
-             "(concrete: costs cannot cross argv/JSON symbolically).",
+             "(concrete: costs cannot cross argv/JSON symbolically), including a seven-digit cost vector, ordered inputs without any solution (nothing "
+             "may be written) and multifurcating input files with partially named ancestors (names must survive the refinement).",
         design="5/C12", engine="crosshair",
         note="Trusted: CrossHair 0.0.110 + z3, engine.forksym, oracles; "
              "get_species_mapping is enumerated (CrossHair 'Not confirmed')."),
@@ -45,7 +46,8 @@ CHECKS = {
              "direction of every transfer arrow) is a path. On each path: one branch per object node in its species with the kind the evaluator "
              "and the oracle assign, one loss pseudo-gene per counted full loss in the species where it occurs, one TikZ node statement per "
              "branch with the matching style, one transfer arrow per transfer ending at the transferred child's anchor; z3 proves every size "
-             "attached to the node it was measured for.",
+             "attached to the node it was measured for. One reconciliation object serves both orientations and half of the items are drawn after "
+             "another valid reconciliation of the same input object.",
         design="5/C13", engine="forksym",
         note="Trusted: engine.forksym over z3 LRA; stub measurer bound to render.layout.measure_nodes; engine/oracles/recon.py for events and loss locations."),
     "C15": dict(
@@ -53,7 +55,8 @@ CHECKS = {
         text="tex.escape is confirmed by CrossHair over all paths for every string up to the bound against a character-wise specification (with a "
              "reachability twin). The renderer runs on symbolic sizes; on every feasible path the text passes a TikZ lexer, every colour used is "
              "defined before the picture, node and loss-marker colours equal the nearest coloured ancestor-or-self, labels list the families in "
-             "order and ancestral labels are omitted iff equal to the parent's. balanced_wrap/format_synteny are enumerated exhaustively over the "
+             "order and ancestral labels are omitted iff equal to the parent's; the same object is drawn again at label widths 6, 18 and 40 and "
+             "every drawing's labels obey its own width and the greedy line count. balanced_wrap/format_synteny are enumerated exhaustively over the "
              "property's small word space (stated as enumeration: textwrap needs concrete strings).",
         design="5/C15", engine="crosshair",
         note="Trusted: CrossHair 0.0.110 + z3; TikZ acceptance approximated by a lexer; names restricted to letters, digits, underscore, backslash."),
@@ -62,7 +65,8 @@ CHECKS = {
         text="Every node's width/height and the numeric drawing parameters are symbolic positive reals; every feasible ordering of the layout's "
              "min/max comparisons is explored and on each path one z3 query proves sibling-box disjointness and containment, pairwise trunk "
              "disjointness, existence of every referenced anchor, the x<->y mirror equality between the horizontal layout with (h,w) and the "
-             "vertical one with (w,h), and repeatability, for all values on that path.",
+             "vertical one with (w,h), and repeatability, for all values on that path; the three layouts of an item are computed on ONE "
+             "reconciliation object, half of the items after another reconciliation of the same input object was drawn.",
         design="5/C14", engine="forksym",
         note="Trusted: engine.forksym over z3 linear real arithmetic; floats modelled as exact reals (counterexamples replayed with exact rationals and floats); "
              "stub measurer bound to render.layout.measure_nodes; reconciliations come from the independent enumerator."),
@@ -71,7 +75,8 @@ CHECKS = {
         text="For every tree shape with arbitrary arities up to the bound z3 decides, on a declarative clade specification, that every tree produced "
              "by binarize is a refinement, that none is repeated and that none is missing (spec AND NOT(outputs) unsat); names, colours and leaf data "
              "are preserved. End to end the extended solvers run on symbolic costs and z3 proves the optimum no dearer than any solution of any "
-             "refinement pair generated from the SAT models.",
+             "refinement pair generated from the SAT models (finite and infinite transfer cost; ancestors named o#/s# or O#/S#; no repeated names in a "
+             "solution's trees); the same tree object is edited in place and refined again.",
         design="5/C08", engine="forksym"),
     "C09": dict(
         technique="paired bounded symbolic execution (affine costs, z3 LIA) of original vs. transformed input; clade-indexed set comparison; sampled fresh-process determinism",
@@ -97,13 +102,15 @@ CHECKS = {
         technique="bounded symbolic execution (affine costs without coherence restriction, z3 LIA) of all seven algorithms; structural validity oracle on every path",
         text="All seven algorithms, both policies, binary inputs and (extended solvers) inputs with polytomies run on symbolic non-negative integer "
              "costs with no coherence restriction; every cost-dependent path is visited (sloss = 0 faces included) and every solution returned on "
-             "every path is checked against the structural definition of a valid complete (super-)reconciliation with finite cost.",
+             "every path is checked against the structural definition of a valid complete (super-)reconciliation with finite cost; deeper inputs run with two or "
+             "three symbolic costs.",
         design="5/C04", engine="forksym"),
     "C05": dict(
         technique="bounded symbolic execution (affine costs, z3 LIA): completeness of the 'all' result proven per path against the oracle's full solution set",
         text="On every feasible cost ordering of thl, exh, base/ext spfs, base_uspfs, superdtl z3 proves that every oracle solution missing from the "
              "'all' result is strictly dearer than the returned cost for all cost vectors of the path, that returned solutions are distinct, optimal "
-             "and equally priced, that 'any' returns exactly one member of the 'all' result, and that the result is empty only if the oracle set is.",
+             "and equally priced, that 'any' returns exactly one member of the 'all' result, and that the result is empty only if the oracle set is. Deeper ordered/unordered sections (three symbolic costs) and call-history "
+             "sections (fresh interpreter; same input object with costs changed in place) are included.",
         design="5/C05", engine="forksym"),
     "C02": dict(
         technique="bounded symbolic execution (five affine costs, z3 LIA) of sreconcile_extended_spfs / base_spfs vs. independent enumerator of mappings x root orders x labellings",
@@ -142,7 +149,8 @@ CHECKS = {
         text="Candidate values are unconstrained symbolic integers; for every policy pair, tag pattern, batching and placement in the bound "
              "(standalone entries, cells of 1-3 dimensional tables) every feasible value ordering of the real update/combine code is explored "
              "and z3 proves value and tags equal to the specification; a single-update inductive step from an arbitrary invariant-satisfying "
-             "pre-state extends the claim to histories of any length.",
+             "pre-state extends the claim to histories of any length. Half of the multi-batch histories are 'watched' (every observer read after "
+             "every batch; info/iteration/len must agree with infos); combine receivers include cells written with an untagged candidate.",
         design="5/C16", engine="forksym"),
     "C06": dict(
         technique="bounded symbolic execution (affine costs, z3 LIA) of the cost evaluator vs. independent recount",
